@@ -269,3 +269,20 @@ pub fn library_session(doc: &Doc, env: &BTreeMap<String, String>, calls: Vec<Ses
         .expect("spawn session thread");
     h.join().expect("session thread join")
 }
+
+
+/// serde_json without its recursion limit (documents may nest 45 levels deep, each level a few
+/// JSON levels); run on a thread with a large stack.
+pub fn json_from_slice<T: serde::de::DeserializeOwned + Send + 'static>(bytes: &[u8]) -> Result<T, String> {
+    let bytes = bytes.to_vec();
+    std::thread::Builder::new()
+        .stack_size(64 << 20)
+        .spawn(move || {
+            let mut de = serde_json::Deserializer::from_slice(&bytes);
+            de.disable_recursion_limit();
+            T::deserialize(&mut de).map_err(|e| e.to_string())
+        })
+        .map_err(|e| e.to_string())?
+        .join()
+        .map_err(|_| "decoder thread panicked".to_string())?
+}
